@@ -718,13 +718,14 @@ class ExprMixin:
                 if pure:
                     s3, rv = sub[0]
                     facts = s3.pc[n0 + 1:]
-                    s3.pc = s3.pc[:n0] + [z3.Implies(guard, f) for f in facts]
                     try:
                         if is_and:
                             val = self.andor_value(t, rv, v, s3)
                         else:
                             val = self.andor_value(z_not(t), rv, v, s3)
-                        outs.append((s3, val))
+                        s1.pc[:] = s3.pc[:n0] + [z3.Implies(guard, f) for f in facts]
+                        s1.heap = s3.heap
+                        outs.append((s1, val))
                         continue
                     except TypeError:
                         pass
@@ -793,7 +794,11 @@ class ExprMixin:
                 m = merge_states(c, {"v": ra[0][1]}, ra[0][0],
                                  {"v": rb[0][1]}, rb[0][0], n0)
                 if m is not None:
-                    outs.append((m[1], m[0]["v"]))
+                    # keep the caller's state object (callers may hold on to it)
+                    s.pc[:] = m[1].pc
+                    s.heap = m[1].heap
+                    s.ghost = m[1].ghost
+                    outs.append((s, m[0]["v"]))
                     continue
             outs += [(x, v) for (x, v) in ra if self.feasible(x.pc)]
             outs += [(x, v) for (x, v) in rb if self.feasible(x.pc)]
